@@ -32,7 +32,7 @@ Chars == 1..NC
 Syms == 0..NC
 RowSum(r) == FoldSet(LAMBDA c, acc: acc + r[c], 0, Syms)
 Rows == {r \in [Syms -> 0..D] : RowSum(r) = D}
-AnyRows == [Syms -> 0..D]
+AnyRows == [Syms -> 0..(D + 1)]       \* unnormalised rows: a single symbol may carry more than the whole mass (log-probability > 0)
 
 VARIABLES mat, t, beam, phase
 vars == <<mat, t, beam, phase>>
